@@ -1,6 +1,9 @@
 """tables for C17 (src/utils/file.py: AtomicFile naming constants, defaults, primitives used)"""
-import ast
-from gen_tables import table, tree, find_def, find_class, need, cstr, cbool
+import ast, os
+import gen_tables
+from gen_tables import table, tree, find_def, find_class, need, cstr, cbool, clist, Shape, handler_names
+
+SWALLOWS = ('Exception', 'BaseException', 'OSError', 'IOError', 'EnvironmentError')
 
 
 def _strs(node):
@@ -48,9 +51,129 @@ def gen_T17():
     modes = [n.args[1].value for n in ast.walk(close) if isinstance(n, ast.Call) and ast.unparse(n.func) == 'open'
              and len(n.args) == 2 and isinstance(n.args[1], ast.Constant)]
     need(modes == ['a'], 'AtomicFile.close opens the target with mode %r (model: one open(...,"a"))' % modes)
+    del_rb, exit_rb = unwinding_methods(cls)
+    sites, unsafe, swallow, _ = call_sites()
     out = 'Require Import Base.Wire.\n'
     out += 'Definition BACKUP_INFIX : list N := %s.\n' % cstr(infix)
     out += 'Definition DEVNULL : list N := %s.\n' % cstr('/dev/null')
     out += 'Definition DEFAULT_MBIS : bool := %s.\n' % cbool(vals['makeBackupIfSmaller'])
     out += 'Definition DEFAULT_AEO : bool := %s.\n' % cbool(vals['allowEmptyOverwrite'])
-    return 'src/utils/file.py', out
+    # what the unwinding of an exception does to an open AtomicFile (see unwinding_methods / call_sites)
+    out += 'Definition DEL_ROLLS_BACK : bool := %s.\n' % cbool(del_rb)
+    out += 'Definition EXIT_ROLLS_BACK : bool := %s.\n' % cbool(exit_rb)
+    out += 'Definition ATOMIC_CALL_SITES : list (list N) :=\n  %s.\n' % clist(cstr(x) for x in sites)
+    out += 'Definition COMMIT_ON_UNWIND_SITES : list (list N) := %s.\n' % clist(cstr(x) for x in unsafe)
+    # callers that wrap fd.write(...) in a try whose handler swallows OSError: the flush goes on and commits
+    out += 'Definition SWALLOW_WRITE_ERROR_SITES : list (list N) := %s.\n' % clist(cstr(x) for x in swallow)
+    return 'src/utils/file.py + every AtomicFile call site under src/ and plugins/', out
+
+
+def _only_call(stmts, name):
+    """the statement list is exactly [self.<name>()]"""
+    return (len(stmts) == 1 and isinstance(stmts[0], ast.Expr) and isinstance(stmts[0].value, ast.Call)
+            and ast.unparse(stmts[0].value) == 'self.%s()' % name)
+
+
+def unwinding_methods(cls):
+    """(does __del__ roll back?, does __exit__ roll back when an exception is in flight?)"""
+    defs = {n.name: n for n in cls.body if isinstance(n, ast.FunctionDef)}
+    need('__del__' in defs and '__exit__' in defs, 'AtomicFile.__del__/__exit__ not found')
+    body = [n for n in defs['__del__'].body if not (isinstance(n, ast.Expr) and isinstance(n.value, ast.Constant))]
+    if _only_call(body, 'rollback'):
+        del_rb = True
+    elif _only_call(body, 'close'):
+        del_rb = False
+    else:
+        raise Shape('AtomicFile.__del__ is neither self.rollback() nor self.close(): %s' % ast.unparse(defs['__del__'])[:200])
+    ex = defs['__exit__']
+    need(len(ex.args.args) == 4, 'AtomicFile.__exit__ signature changed')
+    exc_name = ex.args.args[1].arg
+    body = [n for n in ex.body if not (isinstance(n, ast.Expr) and isinstance(n.value, ast.Constant))]
+    if (len(body) == 1 and isinstance(body[0], ast.If) and ast.unparse(body[0].test) in (exc_name, exc_name + ' is not None')
+            and _only_call(body[0].body, 'rollback') and _only_call(body[0].orelse, 'close')):
+        exit_rb = True
+    elif _only_call(body, 'close') or (len(body) == 1 and isinstance(body[0], ast.If) and _only_call(body[0].body, 'close')):
+        exit_rb = False
+    else:
+        raise Shape('AtomicFile.__exit__ has an unexpected shape: %s' % ast.unparse(ex)[:300])
+    rb = defs.get('rollback')
+    need(rb is not None and 'os.remove' in _calls(rb) and 'self._fd.close' in _calls(rb),
+         'AtomicFile.rollback no longer closes and removes the temp file')
+    return del_rb, exit_rb
+
+
+def call_sites():
+    """every AtomicFile(...) call under src/ and plugins/: (inventory, sites whose close() -- the COMMIT -- also runs
+    while an exception unwinds: close() lexically inside a finally: or except: block).  `with AtomicFile(...)` goes
+    through __exit__ (checked separately)."""
+    sites, unsafe, swallow, swallow_lines = [], [], [], {}
+    for top in ('src', 'plugins'):
+        for root, dirs, files in os.walk(os.path.join(gen_tables.REPO, top)):
+            dirs.sort()
+            for fn in sorted(files):
+                if not fn.endswith('.py'):
+                    continue
+                full = os.path.join(root, fn)
+                rel = os.path.relpath(full, gen_tables.REPO)
+                text = open(full, encoding='utf-8', errors='replace').read()
+                if 'AtomicFile' not in text or rel == 'src/utils/file.py':
+                    continue
+                t = ast.parse(text, rel)
+                parent = {}
+                for n in ast.walk(t):
+                    for c in ast.iter_child_nodes(n):
+                        parent[c] = n
+
+                def ancestors(n):
+                    while n in parent:
+                        n = parent[n]
+                        yield n
+
+                def funcname(n):
+                    names = [a.name for a in ancestors(n) if isinstance(a, (ast.FunctionDef, ast.ClassDef))]
+                    return '.'.join(reversed(names)) or '<module>'
+                for call in [n for n in ast.walk(t) if isinstance(n, ast.Call) and ast.unparse(n.func).split('.')[-1] == 'AtomicFile']:
+                    site = '%s:%s' % (rel, funcname(call))
+                    par = parent[call]
+                    if isinstance(par, ast.withitem):
+                        sites.append(site + ' [with]')
+                        continue
+                    need(isinstance(par, ast.Assign) and len(par.targets) == 1
+                         and isinstance(par.targets[0], (ast.Name, ast.Attribute)),
+                         '%s: AtomicFile(...) is neither assigned to a name nor used in a with statement' % site)
+                    var = ast.unparse(par.targets[0])
+                    sites.append(site + ' [%s]' % var)
+                    if isinstance(par.targets[0], ast.Name):
+                        scope = next((a for a in ancestors(call) if isinstance(a, ast.FunctionDef)), t)
+                    else:
+                        scope = t
+                    for c2 in ast.walk(scope):
+                        if isinstance(c2, ast.Call) and ast.unparse(c2.func) in (var + '.write', var + '.writelines'):
+                            child = c2
+                            for a in ancestors(c2):
+                                if isinstance(a, ast.Try) and any(child is x for x in a.body) and any(
+                                        (h.type is None or any(nm in SWALLOWS for nm in handler_names(h)))
+                                        and not any(isinstance(x, ast.Raise) for x in ast.walk(h)) for h in a.handlers):
+                                    swallow.append(site + ' [write error swallowed]')
+                                    swallow_lines.setdefault(fn, set()).add(c2.lineno)
+                                if a is scope:
+                                    break
+                                child = a
+                        if isinstance(c2, ast.Call) and ast.unparse(c2.func) == var + '.close':
+                            child = c2
+                            for a in ancestors(c2):
+                                if isinstance(a, ast.Try) and any(child is x or child in ast.walk(x) for x in a.finalbody):
+                                    unsafe.append(site + ' [close in finally]')
+                                if isinstance(a, ast.ExceptHandler):
+                                    unsafe.append(site + ' [close in except]')
+                                if a is scope:
+                                    break
+                                child = a
+    need(any(x.startswith('src/ircdb.py:UsersDictionary.flush') for x in sites)
+         and any(x.startswith('src/ircdb.py:ChannelsDictionary.flush') for x in sites)
+         and any(x.startswith('src/ircdb.py:NetworksDictionary.flush') for x in sites)
+         and any(x.startswith('src/ircdb.py:IgnoresDB.flush') for x in sites)
+         and any(x.startswith('src/registry.py:close') for x in sites)
+         and any(x.startswith('src/dbi.py:FlatfileMapping.vacuum') for x in sites),
+         'an anchored flusher no longer goes through AtomicFile: %r' % sites)
+    return sites, sorted(set(unsafe)), sorted(set(swallow)), swallow_lines
